@@ -170,6 +170,8 @@ def gen_float(args):
 
 def run():
     ctx = Ctx('C05')
+    from .padloop import padloop_leg
+    padloop_leg(ctx, 'C05')
     L = ctx.pick(7, 9)
     Lenv = ctx.pick(6, 8)
     invs = ['ExactExtrema', 'RefinedNear', 'PadShape', 'ReversalEquivariant', 'SignFlipEquivariant', 'ScaleEquivariant']
